@@ -57,6 +57,8 @@ pub(super) struct MqttSharedQueues {
     waiters: VecDeque<pool::Sender<()>>,
     /// QoS 2 publishes waiting for PUBCOMP, keyed by packet id
     released: HashMap<num::NonZeroU16, (pool::Sender<Ack>, Option<pool::Receiver<Ack>>)>,
+    /// QoS 2 publishes whose sender is gone before PUBREC is received
+    abandoned: HashSet<num::NonZeroU16>,
 }
 
 pub(super) struct MqttSinkPool {
@@ -89,6 +91,7 @@ impl MqttShared {
                 inflight_ids: HashSet::default(),
                 waiters: VecDeque::new(),
                 released: HashMap::default(),
+                abandoned: HashSet::default(),
             }),
             receive_max: Cell::new(0),
             topic_alias_max: Cell::new(0),
@@ -292,6 +295,7 @@ impl MqttShared {
         let mut queues = self.queues.borrow_mut();
         queues.waiters.clear();
         queues.released.clear();
+        queues.abandoned.clear();
         // payload chunk waiting for write back-pressure to be lifted
         self.streaming_waiter.take();
 
@@ -471,6 +475,15 @@ impl MqttShared {
                 // acknowledgements of other packets is not defined
                 let (tx, rx) = self.pool.queue.channel();
                 queues.released.insert(idx, (tx, Some(rx)));
+
+                // sender is gone, nobody is going to release publish
+                if queues.abandoned.remove(&idx) {
+                    drop(queues);
+                    let _ = self.release_publish(codec::PublishAck2 {
+                        packet_id: idx,
+                        ..Default::default()
+                    });
+                }
                 Ok(())
             } else {
                 // get publish ack channel
@@ -669,6 +682,22 @@ impl MqttShared {
     }
 
     /// Register ack in response channel
+    /// Sender of QoS 2 publish is dropped before `PublishReceived` is created.
+    ///
+    /// Exchange is completed on its behalf, otherwise its slot is never freed
+    pub(super) fn abandon_publish(&self, id: num::NonZeroU16) {
+        if self.is_closed() {
+            return;
+        }
+        let received = self.queues.borrow().released.contains_key(&id);
+        if received {
+            let _ = self
+                .release_publish(codec::PublishAck2 { packet_id: id, ..Default::default() });
+        } else {
+            self.queues.borrow_mut().abandoned.insert(id);
+        }
+    }
+
     pub(super) fn release_publish(
         &self,
         pkt: codec::PublishAck2,
